@@ -28,7 +28,7 @@ for d in sorted(glob.glob(os.path.join(src, "C??-m?"))):
     out = os.path.join(dst, name)
     os.makedirs(out, exist_ok=True)
     shutil.copy(os.path.join(d, "patch.diff"), os.path.join(out, "patch.diff"))
-    for f in ("demo.rs", "demo.md", "demo.Cargo.toml", "patch.orig.diff"):
+    for f in ("demo.rs", "demo.md", "demo.Cargo.toml", "patch.orig.diff", "demo_threads.rs", "demo_delay.diff", "confirm.json"):
         if os.path.exists(os.path.join(d, f)):
             shutil.copy(os.path.join(d, f), os.path.join(out, f))
     meta = {
@@ -48,6 +48,8 @@ for d in sorted(glob.glob(os.path.join(src, "C??-m?"))):
     }
     if special:
         meta["confirmed_by_me"]["note"] = special
+    elif conf.get("note"):
+        meta["confirmed_by_me"]["note"] = conf["note"]
     if os.path.exists(os.path.join(d, "patch.orig.diff")):
         meta["note"] = "patch.diff is the same change ported by hand to the repaired tree (the original, patch.orig.diff, was written before a later fix: commit touched the same lines)"
     json.dump(meta, open(os.path.join(out, "meta.json"), "w"), indent=1)
